@@ -10,4 +10,7 @@ for c in cl:
         jsonschema.validate(json.load(open('/verif/evidence/%s.json' % c)), json.load(open('/root/.vp/EVIDENCE.schema.json')))
     except Exception as e:
         print('EVIDENCE PROBLEM', c, str(e)[:300])
-print('manifest ok; claimed', cl)
+for c in cl:
+    e = json.load(open("/verif/evidence/%s.json" % c))["coverage"]
+    assert e["obligations"] == e["discharged"] and e["obligations"] > 0, (c, e["obligations"], e["discharged"])
+print("manifest ok; claimed", cl)
